@@ -266,11 +266,71 @@ def rule_c(ctx, ix):
                   'replaced identifier raises IncompatibleAttribute afterwards', where=f.where)
     # order kept: the dict is rebuilt in iteration order with the key swapped in place
     rebuild = [st for st in walk_no_nested(f.node) if isinstance(st, ast.Assign) and unparse(st.targets[0]) == '%s._components' % f.self_name]
-    ok = len(rebuild) == 1 and 'OrderedDict' in unparse(rebuild[0].value) and ' if ' in unparse(rebuild[0].value) and \
-        '.items()' in unparse(rebuild[0].value)
+    ok = len(rebuild) == 1 and _rebuilt_in_order(f.node, rebuild[0].value, '%s._components' % f.self_name)
     ctx.ob(R, f.construct, 'the component order is preserved (dict rebuilt in place order)', ok,
            detail='Data.update_id no longer rebuilds _components in iteration order with the key replaced in place: the replaced '
                   'attribute moves to the end', where=f.where)
+
+
+def _rebuilt_in_order(fnode, value, src):
+    """Is ``value`` a new mapping made by ONE unfiltered pass over the mapping ``src`` in its iteration order, with a key swapped
+    on the way (a conditional key)?  Written as a comprehension / generator handed to a dict constructor, or as a loop filling a
+    fresh local mapping that is then stored."""
+    def whole_pass(it):
+        t = unparse(it)
+        return t in (src, src + '.items()', 'list(%s.items())' % src, 'list(%s)' % src, src + '.keys()', 'iter(%s.items())' % src)
+
+    v = value
+    if isinstance(v, ast.Call) and isinstance(v.func, ast.Name) and v.func.id in ('OrderedDict', 'dict') and len(v.args) == 1 and not v.keywords:
+        v = v.args[0]
+    if isinstance(v, (ast.GeneratorExp, ast.ListComp, ast.DictComp)):
+        if len(v.generators) != 1 or v.generators[0].ifs or not whole_pass(v.generators[0].iter):
+            return False
+        key = v.key if isinstance(v, ast.DictComp) else v.elt
+        return any(isinstance(x, ast.IfExp) for x in ast.walk(key))
+    if isinstance(v, ast.Name):
+        defs = [st for st in walk_no_nested(fnode) if isinstance(st, ast.Assign) and any(isinstance(t, ast.Name) and t.id == v.id for t in st.targets)]
+        if len(defs) != 1:
+            return False
+        d = defs[0].value
+        if isinstance(d, (ast.GeneratorExp, ast.ListComp, ast.DictComp)) or \
+                isinstance(d, ast.Call) and d.args:
+            return _rebuilt_in_order(fnode, d, src)
+        empty = isinstance(d, ast.Dict) and not d.keys or isinstance(d, ast.Call) and isinstance(d.func, ast.Name) and \
+            d.func.id in ('OrderedDict', 'dict') and not d.args and not d.keywords
+        if not empty:
+            return False
+        stores = [st for st in walk_no_nested(fnode) if isinstance(st, ast.Assign) and isinstance(st.targets[0], ast.Subscript)
+                  and unparse(st.targets[0].value) == v.id]
+        loops = [lp for lp in walk_no_nested(fnode) if isinstance(lp, ast.For) and any(st in stores for st in ast.walk(lp))]
+        if len(loops) != 1 or not whole_pass(loops[0].iter) or not stores:
+            return False
+        lp = loops[0]
+        if any(isinstance(x, (ast.Break, ast.Continue, ast.Return, ast.Raise)) for x in ast.walk(lp)) or lp.orelse:
+            return False
+        if len(stores) != len([st for st in stores if any(st is x for x in ast.walk(lp))]):
+            return False        # the mapping is also written outside the pass
+
+        def always_stores(stmts):
+            for st in stmts:
+                if st in stores:
+                    return True
+                if isinstance(st, ast.If) and st.orelse and always_stores(st.body) and always_stores(st.orelse):
+                    return True
+            return False
+        if not always_stores(lp.body):
+            return False
+        # no other mutation of the new mapping (pop / del / move_to_end) that could re-order it
+        for c in calls_in(fnode):
+            if isinstance(c.func, ast.Attribute) and unparse(c.func.value) == v.id and c.func.attr in \
+                    ('pop', 'popitem', 'move_to_end', 'clear', 'update', 'setdefault', '__delitem__', '__setitem__'):
+                return False
+        if any(isinstance(x, ast.Delete) and any(unparse(t).startswith(v.id + '[') for t in x.targets) for x in walk_no_nested(fnode)):
+            return False
+        swapped = any(isinstance(x, ast.IfExp) for st in stores for x in ast.walk(st.targets[0].slice)) or \
+            any(isinstance(x, ast.If) and sum(1 for st in stores if any(st is y for y in ast.walk(x))) >= 2 for x in ast.walk(lp))
+        return swapped
+    return False
 
 
 def rule_d(ctx, ix):
